@@ -25,6 +25,7 @@ REGISTRY = {
     # supplementary models beyond the listed properties (not in MANIFEST.checks)
     "S01": ("checks.extra_checks", "s01"),
     "S02": ("checks.extra_checks", "s02"),
+    "S03": ("checks.extra_checks", "s03"),
     "C04": ("checks.arith_checks", "c04"),
     "C05": ("checks.arith_checks", "c05"),
     "C12": ("checks.controlb_checks", "c12"),
